@@ -207,7 +207,9 @@ def require_ok(res, what):
 
 # ---------------------------------------------------------------- oracle pass (B4 / B3 walking pass)
 
-def split_file(path, nchunks, tmp, min_lines=200):
+def split_file(path, nchunks, tmp, min_lines=200, boundary=None):
+    """Split an ndjson file into <= nchunks pieces; with `boundary` (a predicate on a line) pieces only
+    start at lines for which it holds (trace files: never cut a trace in two)."""
     with open(path) as f:
         lines = f.readlines()
     n = len(lines)
@@ -215,66 +217,51 @@ def split_file(path, nchunks, tmp, min_lines=200):
         return [], 0
     k = max(1, min(nchunks, n // min_lines or 1))
     size = (n + k - 1) // k
+    cuts = [0]
+    for i in range(1, k):
+        c = i * size
+        if boundary is not None:
+            while c < n and not boundary(lines[c]):
+                c += 1
+        if c < n and c > cuts[-1]:
+            cuts.append(c)
+    cuts.append(n)
     chunks = []
-    for i in range(k):
-        part = lines[i * size:(i + 1) * size]
-        if not part:
-            continue
+    for i in range(len(cuts) - 1):
+        part = lines[cuts[i]:cuts[i + 1]]
         p = os.path.join(tmp, "chunk-%s-%d.ndjson" % (hashlib.md5(path.encode()).hexdigest()[:6], i))
         with open(p, "w") as f:
             f.writelines(part)
-        chunks.append((p, i * size, len(part)))
+        chunks.append((p, cuts[i], len(part)))
     return chunks, n
 
 
-def oracle_pass(ctx, obs_path, module, cfg=None, nchunks=12, timeout=1500, env_extra=None, var="l"):
+def oracle_pass(ctx, obs_path, module, cfg=None, nchunks=12, timeout=1500, env_extra=None, var="l", boundary=None):
     """Walk an observation file with TLC (one state per line, invariant = the spec's judgement).
     Returns dict(lines, accepted, rejections=[(global_line_no(1-based), line_json_text, invariant)], states, transitions)."""
     from concurrent.futures import ThreadPoolExecutor
-    chunks, n = split_file(obs_path, nchunks, ctx.tmp)
+    chunks, n = split_file(obs_path, nchunks, ctx.tmp, boundary=boundary)
     if n == 0:
         raise Inconclusive("oracle pass: empty observation file " + obs_path)
     work = stage_spec(os.path.join(ctx.tmp, "spec-" + module))
 
     def one(ch):
         path, off, cnt = ch
+        env = {"VERIF_IN": path}
+        if env_extra:
+            env.update(env_extra)
+        res = run_tlc(work, module, cfg=cfg or module + ".cfg", workers=1, env=env, timeout=timeout)
+        if not res["ok"]:
+            raise Inconclusive("oracle pass on %s failed: %s\n%s" % (module, res["error"] or res["invariant"], res["out"][-3000:]))
+        if res["distinct"] != cnt + 1:
+            raise Inconclusive("oracle pass on %s walked %d of %d lines" % (module, res["distinct"] - 1, cnt))
+        with open(path) as f:
+            ls = f.readlines()
         rejs = []
-        states = 0
-        start = 0   # lines of this chunk already accepted/skipped
-        cur = path
-        guard = 0
-        while start < cnt:
-            guard += 1
-            if guard > 25:
-                rejs.append((off + start + 1, "<more than 25 rejections in one chunk; stopped>", "many"))
-                break
-            env = {"VERIF_IN": cur}
-            if env_extra:
-                env.update(env_extra)
-            res = run_tlc(work, module, cfg=cfg or module + ".cfg", workers=1, env=env, timeout=timeout)
-            if res["ok"]:
-                states += res["distinct"]
-                break
-            if res["invariant"]:
-                st = tlc_trace_states(res["out"])
-                m = re.search(r"\b%s = (\d+)" % var, st[-1]["_text"]) if st else None
-                if not m:
-                    raise Inconclusive("oracle pass: cannot locate rejected line\n" + res["out"][-2000:])
-                k = int(m.group(1))          # 1-based line within cur
-                states += k
-                with open(cur) as f:
-                    ls = f.readlines()
-                rejs.append((off + start + k, ls[k - 1].strip(), res["invariant"]))
-                start += k
-                rest = ls[k:]
-                if not rest:
-                    break
-                cur = path + ".rest%d" % guard
-                with open(cur, "w") as f:
-                    f.writelines(rest)
-                continue
-            raise Inconclusive("oracle pass on %s failed: %s\n%s" % (module, res["error"], res["out"][-3000:]))
-        return rejs, states
+        for m in re.finditer(r'<<"REJECT", (\d+)(?:, "(\w+)")?>>', res["out"]):
+            k = int(m.group(1))
+            rejs.append((off + k, ls[k - 1].strip(), m.group(2) or "Judge"))
+        return rejs, res["distinct"]
 
     with ThreadPoolExecutor(max_workers=min(len(chunks), 12)) as ex:
         results = list(ex.map(one, chunks))
